@@ -294,6 +294,11 @@ class Interp:
 
         route = spec["route"]
         ctx = self.ctx
+        if self.case["kind"] == "component" and not during_teardown and spec["id"] % 3:
+            # component code addresses "its" context: the object current_context() gives it
+            from asphalt.core import current_context
+
+            ctx = current_context()
         pe = spec.get("pass_exc", False)
         # pass_exception is optional (default False): half of the plain registrations leave it out, some name it
         rest: tuple = (pe,) if pe or spec["id"] % 2 else ()
